@@ -213,6 +213,7 @@ class Audit:
         self.history = history
         self.names = Names()
         self.first_rec = {}
+        self.backend = None
         self.stats = dict(jobs=0, hits=0, collapsed=0, refs=0, noprov=0, failed=0, unfinished=0, cached_single=0, nodes=0, edges=0,
                           tags=0, values=0, exec_failed=0)
 
@@ -411,6 +412,8 @@ class Audit:
                     self.stats["exec_failed"] += 1
                 self.oracle(len(self.exec_info) - 1)
                 self.snapshots.append(self.dump_db())
+        if self.backend is not None:
+            G.release(self.backend)
         return "(session " + " ".join(self.exec_reqs) + ")"
 
     # -- property oracle on the real database (independent of the model)
@@ -656,12 +659,14 @@ def run_history(ctx, history, pending, check_schedule=True):
         return a
     a.request = req
     pending.append(a)
+    keep = a                    # only request / snapshots / history are needed for the comparison with the model
     # schedule independence of the ids (the role of sorted()): same history under another completion order
     if check_schedule and not any(has_fail(e["call"]) for e in history):
         other = [dict(e, policy={"fifo": "lifo", "lifo": "rand", "rand": "fifo"}[e["policy"]]) for e in history]
         b = Audit(ctx, other)
         b.execute()
         if b.inexpressible:
+            keep.watch = keep.log = keep.backend = keep.registry = keep.exec_info = None
             return a
         # names are per audit; compare the digests instead (two runs of the real code, no model involved)
         d1, d2 = a.nodes_seen, b.nodes_seen
@@ -675,6 +680,7 @@ def run_history(ctx, history, pending, check_schedule=True):
             else:
                 ctx.violation("C20-id-depends-on-completion-order", "the set of call hashes of a failure-free history changes with "
                               "the completion order", {"history": history, "other": other}, expected=len(d1), actual=len(d2))
+    keep.watch = keep.log = keep.backend = keep.registry = keep.exec_info = None
     return a
 
 
@@ -707,7 +713,7 @@ def run(ctx):
     pending = []
     for h in CORPUS:
         run_history(ctx, h, pending)
-    for _ in range(ctx.n(120, 1300)):
+    for _ in range(ctx.n(90, 1000)):
         run_history(ctx, gen_history(rng), pending)
     flush(ctx, pending)
 
